@@ -168,11 +168,11 @@ func runTargetRow(t *testing.T, in TIn, out *bufio.Writer) {
 					saw[h] = true
 					mu.Unlock()
 				}
-				tr.Emit("Srv", vtrace.Ev{"conn": conn, "k": "cmd", "verb": verb, "par": par, "ak": "asc", "an": 0, "id": 0,
+				tr.Emit("Srv", vtrace.Ev{"conn": conn, "k": "cmd", "verb": verb, "hn": "", "par": par, "ak": "asc", "an": 0, "id": 0,
 					"r": r, "tls": false, "full": false, "i": 0})
 			case "SrvData":
 				n, _ := f["bytes"].(int)
-				tr.Emit("Srv", vtrace.Ev{"conn": conn, "k": "content", "verb": "", "par": []string{}, "ak": "", "an": 0, "id": 0,
+				tr.Emit("Srv", vtrace.Ev{"conn": conn, "k": "content", "verb": "", "hn": "", "par": []string{}, "ak": "", "an": 0, "id": 0,
 					"r": "", "tls": false, "full": n == len(targetPayload()), "i": 0})
 			}
 		}
